@@ -180,8 +180,11 @@ def r19_3(run):
     txt = str(outs[False])
     run.ob("get_pressure|regression-polynomial", "SUM(" in txt and "3600*vdot_m3_per_s" in txt and "self.reg_par" in txt,
            "the lift is SUM(reg_par * (3600 v)^(n-1))", w, detail=txt[:300])
-    nd = [U(vv).replace(" ", "") for _, vv, _ in assignments(f.node, "n")]
-    run.ob("get_pressure|exponents", nd == ["np.arange(len(self.reg_par),0,-1)"], "exponents run from len(reg_par)-1 down to 0", w, detail=str(nd))
+    from ..arrnf import ANF as _ANF2, walk as _walk2, expect as _expect2, key as _key2
+    rgp = _ANF2(ix, f).run()
+    wantn = _expect2(ix, f, "np.arange(len(self.reg_par), 0, -1) - 1")
+    nd = any(_key2(x) == _key2(wantn) for e in rgp.events for t in ([getattr(e, "value", ())] if e.kind != "call" else [e.term]) for x in _walk2(t))
+    run.ob("get_pressure|exponents", nd, "exponents run from len(reg_par)-1 down to 0", w)
     rf = ix.func(ST + ".regression_function")
     run.ob("regression_function|polyfit", "np.polyfit(x_values, y_values, degree)" in U(rf.node), "regression parameters are numpy.polyfit coefficients (highest power first)", run.where(rf, rf.node))
     run.floor(6)
@@ -206,10 +209,14 @@ def r19_4(run):
     run.analysed(cl)
     # files call_lib opens (from the source)
     opened = []
-    for n in ast.walk(cl.node):
-        if isinstance(n, ast.Assign) and isinstance(n.targets[0], ast.Subscript) and U(n.targets[0].value) == "properties" \
-                and isinstance(n.value, ast.Call) and n.value.args and const_str(n.value.args[0]):
-            opened.append((const_str(n.targets[0].slice), callee_name(n.value), const_str(n.value.args[0])))
+    from ..arrnf import ANF as _ANF
+    rcl = _ANF(ix, cl).run()
+    for s_ in rcl.stores():
+        # <dict>[<property name>] = <local loader>(<file stem>)   (unconditional entries only: the heating values are optional)
+        if len(s_.index) == 1 and s_.index[0][0] == "c" and isinstance(s_.index[0][1], str) and not s_.loops and not \
+                any(c_[0] == "cmp" and ("c", "gas") in (c_[2], c_[3]) for c_, _p in s_.cond) \
+                and s_.value[0] == "call" and s_.value[1][0] == "localfn" and s_.value[2] and s_.value[2][0][0] == "c":
+            opened.append((s_.index[0][1], s_.value[1][1], s_.value[2][0][1]))
     run.ob("call_lib|properties-found", len(opened) >= 6, "properties opened by call_lib: %s" % opened, run.where(cl, cl.node))
     for fluid in liquids + gases:
         d = os.path.join(base, fluid)
@@ -235,7 +242,11 @@ def r19_4(run):
                    "src/pandapipes/properties/%s/compressibility.txt" % fluid)
     # from_path of the linear property reads (slope, offset) in that order
     lp = ix.cls(FL + ".FluidPropertyLinear").methods["from_path"]
-    run.ob("FluidPropertyLinear.from_path|order", "slope, offset = np.loadtxt(path)" in U(lp.node) and "return cls(slope, offset)" in U(lp.node),
+    rlp = _ANF(ix, lp).run()
+    lt = ("call", ("x", "numpy.loadtxt"), (("n", lp.params()[1]),), ())
+    okl = len(rlp.returns()) == 1 and rlp.returns()[0].value == ("call", ("n", lp.params()[0]), (("idx", lt, (("c", 0),)), ("idx", lt, (("c", 1),))), ())
+    okl = okl or (len(rlp.returns()) == 1 and rlp.returns()[0].value == ("call", ("n", lp.params()[0]), (("proj", lt, 0), ("proj", lt, 1)), ()))
+    run.ob("FluidPropertyLinear.from_path|order", okl,
            "compressibility.txt is read as (slope, offset)", run.where(lp, lp.node))
     # library std types
     lib = ix.sp.data_path("std_types", "library")
@@ -245,39 +256,63 @@ def r19_4(run):
 
 
 def r19_5(run):
+    from ..arrnf import ANF, C, contains, key as tkey, match, norm_cond, roots, show as tshow, walk
     ix = run.index
+    ru = ix.func("pandapipes.component_models.component_toolbox.retrieve_u")
+    ls = ix.func("pandapipes.std_types.std_types.load_std_type")
     for fname in ("create_pipe", "create_pipes"):
         f = ix.func("pandapipes.create." + fname)
         run.analysed(f)
-        from .c16 import written_columns
-        table, cols, wcall = written_columns(f)
-        w = run.where(f, wcall)
-        var = "pipe_parameter" if fname == "create_pipe" else "pipe_parameters"
+        w = run.where(f, f.node)
+        r = ANF(ix, f, strip=False, param_alias={f.params()[0]: "net"}).run()
+        # the dictionary of column values that is written into the pipe table
+        dicts = [x for e in r.events for t in ([e.term] if e.kind == "call" else [getattr(e, "value", ())]) for x in walk(t)
+                 if x[0] == "dict" and any(k_ == C("inner_diameter_mm") for k_, _ in x[1]) and any(k_ == C("length_km") for k_, _ in x[1])]
+        if not dicts:
+            raise AnalysisError("%s: the dictionary of written pipe columns was not found" % fname)
+        d = dict((k_[1], v_) for k_, v_ in dicts[0][1] if k_[0] == "c")
+        loaded = None
         for col in ("inner_diameter_mm", "outer_diameter_mm", "k_mm", "u_w_per_m2k"):
-            v = U(cols.get(col)).replace('"', "'")
-            run.ob("%s|%s<-std-type" % (fname, col), v == "%s['%s']" % (var, col),
-                   "%s.%s is taken from the loaded std type" % (fname, col), w, detail=v)
-        src = U(f.node).replace('"', "'")
-        run.ob("%s|loads-through-retrieve_u" % fname, "retrieve_u(load_std_type(net, " in src and "'pipe'))" in src,
+            v = d.get(col)
+            m = match(("idx", ("?", "pp"), (C(col),)), v) if v is not None else None
+            ok = False
+            if m is not None:
+                rs = [x for x in walk(m["pp"]) if x[0] == "call" and x[1] == ("f", ru.qualname)]
+                ok = bool(rs) and all(x[2] and x[2][0][0] == "call" and x[2][0][1] == ("f", ls.qualname) and x[2][0][2][0] == ("n", "net")
+                                      and x[2][0][2][2] == C("pipe") for x in rs)
+                base_roots = roots(m["pp"])
+                ok = ok and all(any(tkey(x) == rk for x in rs) or rk.startswith("('dict'") or rk.startswith("('new'") for rk in base_roots)
+                loaded = m["pp"]
+            run.ob("%s|%s<-std-type" % (fname, col), ok,
+                   "%s.%s is read from retrieve_u(load_std_type(net, <std type>, 'pipe'))" % (fname, col), w, detail=tshow(v)[:160] if v else None)
+        run.ob("%s|loads-through-retrieve_u" % fname, loaded is not None,
                "the parameters are load_std_type(...) passed through retrieve_u", w)
-        # overrides only from the deprecated keyword arguments, only when given
-        ov = [n for n in ast.walk(f.node) if isinstance(n, ast.Assign) and isinstance(n.targets[0], ast.Subscript)
-              and U(n.targets[0].value) == var]
-        from ..pathcond import path_condition, parents
-        par = parents(f.node)
-        okov = True
-        for n in ov:
-            pc = path_condition(f.node, n, par)
-            key = const_str(n.targets[0].slice)
-            src_name = U(n.value)
-            okov = okov and key in ("u_w_per_m2k", "k_mm") and (src_name, True) not in pc and ("%s is not None" % src_name, True) in pc
-        run.ob("%s|overrides-only-if-given" % fname, okov and len(ov) >= 2,
-               "std-type values are overridden only by explicitly given deprecated arguments", w)
-    ru = ix.func("pandapipes.component_models.component_toolbox.retrieve_u")
-    src = U(ru.node).replace('"', "'")
-    run.ob("retrieve_u|copy-and-conversion", "params = copy.deepcopy(params)" in src and
-           "params['u_w_per_mk'] / (params['outer_diameter_mm'] * np.pi) * 1000.0" in src,
-           "retrieve_u works on a copy and converts u_w_per_mk to u_w_per_m2k with the outer diameter", run.where(ru, ru.node))
+        # overrides only from explicitly given (not None) arguments, only for u and k
+        okov, nov = True, 0
+        if loaded is not None:
+            for x in walk(loaded):
+                if x[0] == "ite" and x[2][0] == "upd" and x[2][2] and x[2][2][0][0] == "c":
+                    nov += 1
+                    key_, val = x[2][2][0][1], x[2][3]
+                    c_, p_ = norm_cond(x[1], True)
+                    given = c_[0] == "cmp" and c_[1] == "is not" and C(None) in (c_[2], c_[3]) and tkey(val) in (tkey(c_[2]), tkey(c_[3])) and p_
+                    okov = okov and key_ in ("u_w_per_m2k", "k_mm") and given
+                elif x[0] == "upd" and x[2] and x[2][0][0] == "c" and x[2][0][1] in ("inner_diameter_mm", "outer_diameter_mm"):
+                    okov = False
+        run.ob("%s|overrides-only-if-given" % fname, okov and nov >= 2,
+               "std-type values are overridden only by explicitly given deprecated arguments (u, k), never the diameters", w)
+    run.analysed(ru)
+    rr = ANF(ix, ru, strip=False, param_alias={ru.params()[0]: "params"}).run()
+    rets = rr.returns()
+    cp = ("call", ("x", "copy.deepcopy"), (("n", "params"),), ())
+    ok = bool(rets) and all(roots(e.value) == {tkey(cp)} for e in rets)
+    conv = [x for e in rets for x in walk(e.value) if x[0] == "upd" and x[2] == (C("u_w_per_m2k"),) and x[3][0] in ("op", "opn")]
+    okc = False
+    for x in conv:
+        t = tshow(x[3])
+        okc = okc or ("'u_w_per_mk'" in t and "'outer_diameter_mm'" in t and "pi" in t and "1000" in t)
+    run.ob("retrieve_u|copy-and-conversion", ok and okc,
+           "retrieve_u works on a copy on every path and converts u_w_per_mk to u_w_per_m2k with the outer diameter", run.where(ru, ru.node))
     run.floor(12)
 
 
